@@ -126,6 +126,8 @@ def run(ctx):
     ctx.count("handover_sites", len(calls))
     ctx.ob("C17.b", dg.qual, okc, "_get_device(addr[0], detected version, datagram)", func=dg.qual, file=file, construct="Discover._get_device(ip, version, data)",
            fail="datagram_received does not hand the source address, the detected version and the datagram to _get_device")
+    from .c18 import per_run_state
+    per_run_state(ctx, "C17.b")
     gd = ctx.fn(f"{DISC}._get_device")
     gds = summarize(prog, gd)
     built = False
